@@ -15,6 +15,8 @@ import PqModel.Reset
                              (buf/plain/dict/locs are lengths, held 0/1, hist… the histogram values)
     `f:F<n>|C:<offset>:<ndefs>`         flush that failed after n columns flushed their page / committed
     `c:F<n>|C:<offset>:<ndefs>:<footerOk>:<offset2>`   close
+    `ch:<offset>:<eff>/<eff>/…`         Close that fails while writing the file header: the column writers
+                                        have closed (their rows are pages now), nothing is reset
     `k:<hexkey>:<hexvalue>`             SetKeyValueMetadata
     `s:<n>`                             SortingWriter sorts and writes a chunk whose last row has n values
     `r`                                 Reset
@@ -92,6 +94,10 @@ def parseOp? (s : String) : Option Op :=
     match parseFlush? k off nd, bit? ok, parseNat? off2 with
     | some k, some ok, some off2 => some (.close k ok off2)
     | _, _, _ => none
+  | ["ch", off, effs] =>
+    match parseNat? off, (if effs == "" then some [] else (effs.splitOn "/").mapM parseEff?) with
+    | some off, some effs => some (.closeHeaderFailed effs off)
+    | _, _ => none
   | ["k", k, v] =>
     match hexStr? k, hexStr? v with
     | some k, some v => some (.setKV k v)
